@@ -6,3 +6,11 @@ import RaftWal.Props.C12
 #print axioms RaftWal.C12.decodeOrder_gen_eq
 #print axioms RaftWal.C12.decoder_copies
 #print axioms RaftWal.C12.builtin_codec_reserved
+#print axioms RaftWal.C12.getLog_returns_requested_entry
+#print axioms RaftWal.C12.returned_log_never_changes
+#print axioms RaftWal.C12.pooled_buffers_exclusive
+#print axioms RaftWal.C12.buffer_guards_needed
+#print axioms RaftWal.C12.large_path_choices_irrelevant
+#print axioms RaftWal.C12.stored_log_reads_back
+#print axioms RaftWal.C12.stored_log_reads_back_sealed
+#print axioms RaftWal.C12.stored_log_reads_back_any_chain
